@@ -93,7 +93,7 @@ class Report:
         self.functions.add(getattr(fn, "qualname", str(fn)))
 
     # ------------------------------------------------------------------
-    def finish(self, out=sys.stdout):
+    def finish(self, out=sys.stdout, write=True):
         known, fixed = load_known()
         known_for = [k for k in known if k.get("property") == self.pid]
         new, old = [], []
@@ -113,8 +113,10 @@ class Report:
                 continue
             seen_known.add(k["key"])
             print("KNOWN-FINDING: property=%s %s [%s]" % (self.pid, k.get("what", v["detail"]), k["key"]), file=out)
-        os.makedirs(REPLAY_DIR, exist_ok=True)
         replay_path = os.path.join(REPLAY_DIR, "%s.json" % self.pid)
+        if not write:
+            return 1 if new else 0
+        os.makedirs(REPLAY_DIR, exist_ok=True)
         if new:
             with open(replay_path, "w") as fh:
                 json.dump({"property": self.pid, "tier": self.tier, "violations": new}, fh, indent=1, default=str)
